@@ -246,8 +246,8 @@ class ProgGen:
 			op = self.pick(['-', '~', '-'])
 			inner = self.e_int(cx, t, d - 1)
 			text = self.wrap(inner, P_UNARY)
-			if text.startswith(('-', '+', '~')):
-				text = f'({text})'
+			if text.startswith(('-', '+', '~')) and self.chance(0.5):
+				text = f'({text})'  # else `--x` / `-~x`: the operand's own sign directly behind the operator
 			return (f'{op}{text}', P_UNARY)
 		if c == 18:
 			return self.tern(cx, t, d)
@@ -820,9 +820,15 @@ class ProgGen:
 	# ---- top level --------------------------------------------------------------------
 	def gen_enum(self) -> None:
 		name = f'E{len(self.enums)}'
-		members = [(f'M{i}', v) for i, v in enumerate(self.rnd.sample([1, 2, 3, 5, 8, 13, 21], self.rnd.randint(2, 3)))]
+		members = [(f'M{i}', v) for i, v in enumerate(self.rnd.sample([1, 2, 3, 5, 8, 13, 21] + ([-4, -1] if self.on('enum-const-expr') else []), self.rnd.randint(2, 3)))]
 		self.enums[name] = members
-		self.lines += [f'class {name}(Enum):'] + [f'\t{m} = {v}' for m, v in members] + ['']
+
+		def text(v: int) -> str:
+			# member values as constant expressions: `E.M.value` is folded by the literal evaluator and pasted into the C++ text
+			if not self.on('enum-const-expr') or self.chance(0.5):
+				return str(v)
+			return self.pick([f'{v - 1} + 1', f'{v + 2} - 2', f'({v + 2} - 2)', f'{v * 2} >> 1', f'{v} | 0', f'1 + {v - 3} + 2', f'{v} * 1', f'2 * {v} - {v}', f'-({-v})' if v > 0 else f'0 - {-v}'])
+		self.lines += [f'class {name}(Enum):'] + [f'\t{m} = {text(v)}' for m, v in members] + ['']
 
 	def gen_class(self, base: str | None) -> None:
 		name = f'C{len(self.classes)}'
